@@ -35,6 +35,8 @@ pub struct ReaderState {
     pub zero_len_reads: usize,
     /// how often the end / failure of the transport has been reported
     pub fault_reads: usize,
+    /// see `set_err_once`
+    pub err_once: Option<io::ErrorKind>,
 }
 
 /// see `fault_reads`
@@ -67,6 +69,16 @@ impl MockReader {
     pub fn set_eof(&self) {
         let mut s = self.0.borrow_mut();
         s.eof = true;
+        if let Some(w) = s.waker.take() {
+            drop(s);
+            w.wake();
+        }
+    }
+    /// one transient fault: the next read that finds no data returns an error of this kind once;
+    /// afterwards the reader goes on as before
+    pub fn set_err_once(&self, kind: io::ErrorKind) {
+        let mut s = self.0.borrow_mut();
+        s.err_once = Some(kind);
         if let Some(w) = s.waker.take() {
             drop(s);
             w.wake();
@@ -107,6 +119,10 @@ impl AsyncRead for MockReader {
             return Poll::Ready(Ok(0));
         }
         if s.chunks.is_empty() {
+            if let Some(k) = s.err_once.take() {
+                s.fault_reported = true;
+                return Poll::Ready(Err(io::Error::new(k, "mock (transient)")));
+            }
             if s.err || s.eof {
                 s.fault_reported = true;
                 s.fault_reads += 1;
@@ -118,7 +134,19 @@ impl AsyncRead for MockReader {
                     panic!("VERIF-SPIN the end/failure of the transport was reported {SPIN_LIMIT} times and the caller keeps reading");
                 }
                 if s.err {
-                    return Poll::Ready(Err(io::Error::new(io::ErrorKind::ConnectionReset, "mock")));
+                    // which error: a function of how much was delivered before it (part of the
+                    // case, no extra randomness). `WouldBlock` is left out: returning it as
+                    // `Ready(Err(..))` would itself break the AsyncRead contract.
+                    const KINDS: [io::ErrorKind; 7] = [
+                        io::ErrorKind::ConnectionReset,
+                        io::ErrorKind::Interrupted,
+                        io::ErrorKind::UnexpectedEof,
+                        io::ErrorKind::TimedOut,
+                        io::ErrorKind::ConnectionAborted,
+                        io::ErrorKind::Other,
+                        io::ErrorKind::BrokenPipe,
+                    ];
+                    return Poll::Ready(Err(io::Error::new(KINDS[s.consumed % KINDS.len()], "mock")));
                 }
                 return Poll::Ready(Ok(0));
             }
@@ -272,7 +300,15 @@ impl AsyncWrite for MockWriter {
                         drop(s);
                         panic!("VERIF-SPIN the failure of the transport was reported {SPIN_LIMIT} times and the caller keeps writing");
                     }
-                    return Poll::Ready(Err(io::Error::new(io::ErrorKind::BrokenPipe, "mock")));
+                    const KINDS: [io::ErrorKind; 6] = [
+                        io::ErrorKind::BrokenPipe,
+                        io::ErrorKind::Interrupted,
+                        io::ErrorKind::ConnectionReset,
+                        io::ErrorKind::TimedOut,
+                        io::ErrorKind::WriteZero,
+                        io::ErrorKind::Other,
+                    ];
+                    return Poll::Ready(Err(io::Error::new(KINDS[total % KINDS.len()], "mock")));
                 }
                 n = n.min(at - total);
             }
